@@ -278,8 +278,10 @@ class AppCfgMgr:
                     _LOGGER.info('Ignoring %s as it is running', appname)
                     cached.pop(appname, None)
 
-            elif os.path.exists(os.path.join(self.tm_env.cleanup_dir,
-                                             appname)):
+            elif (os.path.exists(os.path.join(self.tm_env.cleanup_dir,
+                                              appname)) or
+                  os.path.exists(os.path.join(self.tm_env.cleanup_dir,
+                                              container))):
                 # Already in the process of being cleaned up
                 _LOGGER.info('Ignoring %s as it is in cleanup', appname)
                 cached.pop(appname, None)
